@@ -654,7 +654,7 @@ def _(c):
 @contract(NQ + "set_data", props=("C01", "C02", "C03", "C04", "C13"))
 def _(c):
     c.param("self", "node").param("data", "none", "data").param("data_id", "none", "id").param("with_clones", "none", "true", "false")
-    c.families = ("plain",)
+    c.families = ("plain", "typed")
     c.prune = True  # correlated branch conditions: infeasible paths are cut at every `if`
     c.result_tag = "none"
     c.modifies("_data", "_data_id", "ddom", "dlst", "dcard", "llen", "litem", "lalloc", "cpos")
@@ -819,7 +819,7 @@ def _(c):
 @contract(NQ + "rename", props=("C01", "C02", "C03", "C04", "C13"))
 def _(c):
     c.param("self", "node").param("new_name", "data")
-    c.families = ("plain",)
+    c.families = ("plain", "typed")
     c.result_tag = "none"
     c.modifies("_data", "_data_id", "ddom", "dlst", "dcard", "llen", "litem", "lalloc", "cpos")
     c.requires("wf, self is a member", lambda x: And(wf0(x), self_member(x)))
